@@ -173,3 +173,14 @@ Theorem C01_source_qbits_emits_a_code_of_the_format : forall c alpha x, 0 < rden
     req (QBitsGen.gen_qb_xq (qb_bits c) (qb_int c) (qb_kn c) (qb_sym c) alpha x) (rmul alpha (rscale (rofZ code) (qb_se c))) = true.
 Proof. intros c alpha x Xd U. exists (qb_code c (rnum x) (rden x)). split; [apply qb_code_range; exact U | exact (link_qb_xq c alpha x Xd U)]. Qed.
 Print Assumptions C01_source_qbits_emits_a_code_of_the_format.
+
+(* ---- quantized_relu.__call__ (plain ReLU, no sigmoid option) regenerated from the source (coq/gen/ReluCallGen.v): its
+        quantized value IS qr_val of the model, for every configuration and every rational input. ---- *)
+From QV Require Import Link.ReluCallLink.
+From QVGen Require ReluCallGen.
+Theorem C01_source_relu_plain_value_is_the_model : forall c (has_rub : bool) slope rub x,
+  qr_slope c = None -> 0 <= qr_nsb c -> 0 < rden x -> 0 < rden rub ->
+  qr_rub c = (if has_rub then Some rub else None) ->
+  req (ReluCallGen.gen_qr_xq (qr_bits c) (qr_int c) false (qr_qclip c) has_rub slope rub x) (qr_val c x) = true.
+Proof. exact link_qr_xq_plain. Qed.
+Print Assumptions C01_source_relu_plain_value_is_the_model.
